@@ -130,7 +130,13 @@ func (e *Exec) newSymbolicDB(name string, inMemory bool, nColls, nDocs, nSpare i
 	dt.nextID = int64(nDocs)
 	for _, tn := range []string{"designdocs", "views", "mapped"} {
 		if t := st.tables[tn]; t != nil {
-			t.rows = append(t.rows, e.absentRow(t.def), e.absentRow(t.def))
+			n := 2
+			if tn == "mapped" {
+				n = nDocs + nSpare + 2
+			}
+			for i := 0; i < n; i++ {
+				t.rows = append(t.rows, e.absentRow(t.def))
+			}
 		}
 	}
 	db.committed = st
